@@ -76,17 +76,29 @@ Definition emptytag := audio ++ ape_render_tag [].
 Theorem moddelete_empty_refuted : exists f,
   ape_wf f = true /\ ape_moddelete false f = Ok f /\ has_marker f = true /\ ape_delete false f = Ok audio.
 Proof. exists emptytag. vm_compute. repeat split; reflexivity. Qed.
-(* the file-object flavour matters outside ape_wf: 8 bytes "APETAGEX" before the tag are removed through a
-   BytesIO (relative seek clamps to 0 and finds them) but kept through a real file (seek fails, loop ends) *)
-Theorem flavour_refuted : exists f, ape_delete true f = Ok APETAGEX /\ ape_delete false f = Ok [].
-Proof. exists (APETAGEX ++ ape_render_tag [it_title]). vm_compute. split; reflexivity. Qed.
+(* regression (fixed in /repo: the PyMusepack loop runs only while start >= 24): 8 bytes "APETAGEX" before the
+   tag are kept through a BytesIO exactly as through a real file -- the relative seek no longer clamps to 0 *)
+Example short_body_flavours_agree :
+  ape_delete true (APETAGEX ++ ape_render_tag [it_title]) = Ok APETAGEX /\
+  ape_delete false (APETAGEX ++ ape_render_tag [it_title]) = Ok APETAGEX /\
+  ape_wf (APETAGEX ++ ape_render_tag [it_title]) = false.
+Proof. vm_compute. repeat split; reflexivity. Qed.
+(* a header-less tag whose first item bytes complete a fake marker at offset 0: found at its real start *)
+Example headerless_short_body :
+  ape_wf (ape_build [1; 2; 3] 1000 false [it_title] []) = true /\
+  ape_delete false (ape_build [1; 2; 3] 1000 false [it_title] []) = Ok [1; 2; 3] /\
+  ape_delete true (ape_build [1; 2; 3] 1000 false [it_title] []) = Ok [1; 2; 3].
+Proof. vm_compute. repeat split; reflexivity. Qed.
 (* a tag at the START of the file (header first, no footer at EOF) is cut out and the new tag is appended *)
 Theorem at_start_moved : ape_save false (ape_render_tag [it_title] ++ audio) [it_url] = Ok (audio ++ ape_render_tag [it_url]).
 Proof. vm_compute. reflexivity. Qed.
-(* a real (buffered) file raises ValueError from read(-32) when the footer's size field is 0; BytesIO does not *)
-Theorem tiny_footer_flavours :
-  ape_delete true (APETAGEX ++ zeros 24) = Raise EValue /\ ape_delete false (APETAGEX ++ zeros 24) = Ok (APETAGEX ++ zeros 24).
-Proof. vm_compute. split; reflexivity. Qed.
+(* regression (fixed in /repo: size < 0 after excluding the footer raises APEBadItemError): a footer whose size
+   field is 0 is rejected with a MutagenError by both flavours (was: ValueError from read(-32) on a real file,
+   silently accepted on a BytesIO) *)
+Example tiny_footer_rejected :
+  ape_delete true (APETAGEX ++ zeros 24) = Raise EMutagen /\ ape_delete false (APETAGEX ++ zeros 24) = Raise EMutagen /\
+  ape_save true (APETAGEX ++ zeros 24) [] = Raise EMutagen /\ ape_moddelete false (APETAGEX ++ zeros 24) = Raise EMutagen.
+Proof. vm_compute. repeat split; reflexivity. Qed.
 
 (* ------------------------------------------------------------------ tie to the regenerated delete_bytes (C11) *)
 Theorem del_region_prog real part BUF f p size offset : 1 <= BUF ->
